@@ -172,13 +172,36 @@ Section ActFrame.
       right. simpl. exact Hne.
   Qed.
 
-  Lemma Q_remove w k : safe_key k -> Q w -> Q (agent_remove w k).
+  Lemma Q_remove_dyn w k :
+    (forall a, find_agent (w_born w) k = Some a -> a_model a <> j) -> Q w -> Q (obj_remove w k).
   Proof.
-    intros Hs [HI [Hg Hb]]. split; [apply agent_remove_inv; exact HI|]. split.
-    - unfold agent_remove. rewrite deregister_obj_frame; [exact Hg|].
-      intros a Hf. apply find_agent_Some in Hf. destruct Hf as [Hin Hk].
-      destruct (Hb a Hin) as [H0|H0]; [exact (Hs a H0 Hk)|exact H0].
-    - unfold agent_remove. rewrite deregister_obj_born. exact Hb.
+    intros Hd [HI [Hg Hb]]. split; [apply obj_remove_inv; exact HI|]. split.
+    - rewrite obj_remove_frame; [exact Hg|exact Hd].
+    - destruct (obj_remove_born w k) as [ext [E Hext]]. rewrite E. intros a' Ha'.
+      apply in_app_or in Ha'. destruct Ha' as [Ha'|Ha']; [exact (Hb a' Ha')|].
+      right. destruct (find_agent (w_born w) k) as [a|] eqn:Ef.
+      + rewrite (Hext a' a Ha' eq_refl). exact (Hd a eq_refl).
+      + exfalso. unfold obj_remove in E. rewrite Ef in E.
+        assert (ext = []) as -> by (apply (app_inv_head (w_born w)); rewrite <- E; symmetry; apply app_nil_r).
+        exact Ha'.
+  Qed.
+
+  Lemma Q_remove w k : safe_key k -> Q w -> Q (obj_remove w k).
+  Proof.
+    intros Hs HQ. apply Q_remove_dyn; [|exact HQ]. destruct HQ as [HI [Hg Hb]].
+    intros a Hf. apply find_agent_Some in Hf. destruct Hf as [Hin Hk].
+    destruct (Hb a Hin) as [H0|H0]; [exact (Hs a H0 Hk)|exact H0].
+  Qed.
+
+  Lemma Q_fold_remove l : forall w,
+    (forall k, In k l -> exists a, find_agent (w_born w) k = Some a /\ a_model a <> j) ->
+    Q w -> Q (fold_left obj_remove l w).
+  Proof.
+    induction l as [|k t IH]; intros w H HQ; simpl; [exact HQ|].
+    apply IH.
+    - intros k' Hin. destruct (H k' (or_intror Hin)) as [a [H1 H2]]. exists a. split; [|exact H2].
+      apply obj_remove_find. exact H1.
+    - apply Q_remove_dyn; [|exact HQ]. intros a Ha. destruct (H k (or_introl eq_refl)) as [a0 [H1 H2]]. congruence.
   Qed.
 
   Lemma Q_create_loop m c f n is : m <> j -> forall w, Q w -> Q (fst (create_loop w m c f n is)).
@@ -192,9 +215,13 @@ Section ActFrame.
 
   Lemma Q_remove_all w m : m <> j -> Q w -> Q (remove_all w m).
   Proof.
-    intros Hne [HI [Hg Hb]]. split; [apply remove_all_inv; exact HI|]. split.
-    - rewrite (remove_all_frame st); [exact Hg|exact HI|congruence].
-    - unfold remove_all. destruct (getm (w_models w) m); [|exact Hb]. rewrite fold_remove_born. exact Hb.
+    intros Hne HQ. unfold remove_all. destruct (getm (w_models w) m) as [ms|] eqn:Eg; [|exact HQ].
+    apply Q_fold_remove; [|exact HQ]. destruct HQ as [HI _]. intros k Hin.
+    assert (exists a, find_agent (w_born w) k = Some a) as [a Hf].
+    { pose proof Hin as Hin'. rewrite (mi_hard _ _ _ _ _ (inv_models st w HI m ms Eg)) in Hin'.
+      apply live_spec in Hin'. destruct Hin' as [a0 [H1 [H2 _]]].
+      destruct (find_agent_In _ _ H1) as [a' Hf]. rewrite H2 in Hf. eauto. }
+    exists a. split; [exact Hf|]. rewrite (hard_agents_of_model st w m ms k a HI Eg Hin Hf). exact Hne.
   Qed.
 
   Lemma Q_exec w self a : act_safe self a -> Q w -> Q (exec_act w self a).
@@ -274,19 +301,43 @@ Qed.
 Lemma perm_nil_eq (l : list Z) : Permutation l [] -> l = [].
 Proof. intros H. apply Permutation_sym in H. apply Permutation_nil in H. exact H. Qed.
 
+(* without overriding remove() methods among the agents concerned, agent.remove() is Agent.remove *)
+Lemma fold_obj_plain l : forall w,
+  (forall k a, In k l -> find_agent (w_born w) k = Some a -> ov_of (a_cls a) = None) ->
+  fold_left obj_remove l w = fold_left agent_remove l w.
+Proof.
+  induction l as [|k t IH]; intros w H; simpl; [reflexivity|].
+  assert (obj_remove w k = agent_remove w k) as E.
+  { unfold obj_remove. destruct (find_agent (w_born w) k) as [a|] eqn:Ef.
+    - rewrite (H k a (or_introl eq_refl) Ef). reflexivity.
+    - unfold agent_remove, deregister_obj. rewrite Ef. reflexivity. }
+  rewrite E. apply IH. intros k' a Hin Hf. unfold agent_remove in Hf. rewrite deregister_obj_born in Hf.
+  exact (H k' a (or_intror Hin) Hf).
+Qed.
+
+Lemma fold_remove_born l : forall w, w_born (fold_left agent_remove l w) = w_born w.
+Proof.
+  induction l as [|k t IH]; intros w; simpl; [reflexivity|].
+  rewrite IH. apply deregister_obj_born.
+Qed.
+
 (* In ANY state reachable by ANY history - model.agents possibly thinned out through discard/remove/select -
-   remove_all_agents leaves model m with every view empty, nobody live, and the strict invariant back in force *)
+   remove_all_agents leaves model m with every view empty, nobody live, and the strict invariant back in force
+   (provided none of m's registered agents is of a class that overrides remove(): such an override may keep the
+   agent registered or construct new agents while the loop runs, see remove_all_with_override_refuted) *)
 Theorem thm_remove_all_restores st w m ms :
   Inv st w -> getm (w_models w) m = Some ms ->
+  (forall k a, In k (m_hard ms) -> find_agent (w_born w) k = Some a -> ov_of (a_cls a) = None) ->
   let w' := remove_all w m in
   exists ms', getm (w_models w') m = Some ms' /\
     live m (w_born w') (w_removed w') = [] /\
     m_hard ms' = [] /\ m_all ms' = [] /\ (forall c l, bt_get c (m_bt ms') = Some l -> l = []) /\
     minv true (w_born w') (w_removed w') m ms'.
 Proof.
-  intros HI Hg w'.
+  intros HI Hg Hplain w'.
   pose proof (remove_all_inv st w m HI) as HI'. fold w' in HI'.
-  assert (w' = fold_left agent_remove (m_hard ms) w) as Ew by (unfold w', remove_all; rewrite Hg; reflexivity).
+  assert (w' = fold_left agent_remove (m_hard ms) w) as Ew
+    by (unfold w', remove_all; rewrite Hg; apply fold_obj_plain; exact Hplain).
   assert (forall k, In k (m_hard ms) -> exists a, find_agent (w_born w) k = Some a /\ 0 <= a_model a < zlen (w_models w)) as Hk.
   { intros k Hin. rewrite (mi_hard _ _ _ _ _ (inv_models st w HI m ms Hg)) in Hin.
     apply live_spec in Hin. destruct Hin as [a [H1 [H2 _]]].
@@ -447,3 +498,11 @@ Lemma agent_types_names_dead_class :
     getm (w_models w) 0 = Some ms /\ map fst (m_bt ms) = [3; 1] /\ bt_get 3 (m_bt ms) = Some [] /\
     live_cls 0 3 (w_born w) (w_removed w) = [] /\ live 0 (w_born w) (w_removed w) = [1].
 Proof. exists [Create 0 3 5; Create 0 1 6; Remove 0]. eexists. vm_compute. repeat split; reflexivity. Qed.
+
+(* with an overriding remove() the loop of remove_all_agents is not the end of the story: class 6 constructs a new
+   agent after super().remove(), class 7 never deregisters *)
+Lemma remove_all_with_override_refuted :
+  exists ops ms, let w := final (init 1) ops in
+    getm (w_models w) 0 = Some ms /\ m_hard ms = [1; 2] /\ m_all ms = [1; 2] /\
+    live 0 (w_born w) (w_removed w) = [1; 2] /\ map a_cls (w_born w) = [6; 7; 3].
+Proof. exists [Create 0 6 1; Create 0 7 2; RemoveAll 0]. eexists. vm_compute. repeat split; reflexivity. Qed.
